@@ -885,12 +885,16 @@ func (r *stRun) checkBlocks(a *stAStore) map[uint64][]byte {
 				r.fail("C25", "blockdata-unknown-id", fmt.Sprintf("%s: BlockData(%d) lists id %d = %s, which never received attributes", a.name, b, id, stAttrStr(got)))
 			} else if len(got) != 0 {
 				r.fail("C25", "blockdata-mismatch", fmt.Sprintf("%s: BlockData(%d)[%d] = %s, all its attributes were deleted", a.name, b, id, stAttrStr(got)))
+			} else {
+				r.fail("C25", "blockdata-lists-emptied-id", fmt.Sprintf("%s: BlockData(%d) lists id %d, which holds no attribute (all were deleted, or it only ever received an empty update)", a.name, b, id))
 			}
 		}
 	}
 	for b := range sums {
 		if ne, et := a.m.block(b); len(ne) == 0 && len(et) == 0 {
 			r.fail("C25", "blocks-unknown", fmt.Sprintf("%s: Blocks() lists block %d, which never received attributes", a.name, b))
+		} else if len(ne) == 0 {
+			r.fail("C25", "blocks-lists-empty-block", fmt.Sprintf("%s: Blocks() lists block %d, in which no id holds an attribute any more", a.name, b))
 		}
 	}
 	return sums
@@ -923,10 +927,9 @@ func (r *stRun) compareStores(a, b *stAStore) {
 				same = false
 			}
 		}
-		if same && !reflect.DeepEqual(ea, eb) {
-			ambiguous[blk] = true // differ only in ids without attributes: property silent
-			continue
-		}
+		// Blocks that differ only in ids whose attributes were all deleted hold the same
+		// attributes: the checksums must be equal (an emptied id is not one of the block's ids).
+		_, _ = ea, eb
 		ca, oka := sa[blk]
 		cb, okb := sb[blk]
 		if same {
